@@ -37,6 +37,9 @@ func Scheme(r *rand.Rand) string {
 	case 13:
 		return Pick(r, []string{"a+b", "a-b", "a.b", "a1", "h2"})
 	case 14:
+		if r.IntN(2) == 0 {
+			return Confuse(r, Pick(r, []string{"http", "a", "ak", "his", "file", "ws", "a1", "a+b", "git"}))
+		}
 		return Pick(r, []string{"1a", "+a", "-a", ".a", "é", "a b", "a_b", "a/b", "a%41", ""})
 	case 15:
 		return mixCase(r, Pick(r, []string{"http", "https"}))
@@ -121,6 +124,9 @@ func IPv4Host(r *rand.Rand) string {
 	case 3:
 		s = Pick(r, ldhLabels) + "." + s
 	}
+	if r.IntN(25) == 0 {
+		s = Confuse(r, s)
+	}
 	return s
 }
 
@@ -173,6 +179,9 @@ func IPv6Text(r *rand.Rand) string {
 	}
 	if r.IntN(15) == 0 {
 		s += Pick(r, []string{"%25eth0", "%eth0", " ", "/64", "]", "[", ":", ".", "x"})
+	}
+	if r.IntN(25) == 0 {
+		s = Confuse(r, s)
 	}
 	return s
 }
@@ -321,6 +330,9 @@ var ports = []string{"", "0", "1", "21", "80", "443", "8080", "65535", "65536", 
 func Port(r *rand.Rand) string {
 	if r.IntN(3) == 0 {
 		return strconv.Itoa(r.IntN(70000))
+	}
+	if r.IntN(20) == 0 {
+		return Confuse(r, strconv.Itoa(r.IntN(70000)))
 	}
 	return Pick(r, ports)
 }
